@@ -936,7 +936,9 @@ fn project_e2e(run: usize, sc: &Value, events: &[Value]) -> Vec<Value> {
             "sinceStop": if stop_ms >= 0 { ms - stop_ms } else { -1 }, "timeoutMs": timeout_ms,
             "stops": stops, "resolved": resolved, "dropped": dropped,
             "serverDone": server_done, "doneSinceStop": if server_done && stop_ms >= 0 { server_done_ms - stop_ms } else { -1 },
-            "lateServed": late_served, "heldForever": held_forever, "killedEarly": killed_early, "lateConnected": late_connected, "raw": e}));
+            "lateServed": late_served, "heldForever": held_forever, "killedEarly": killed_early, "lateConnected": late_connected,
+            "workers": sc["workers"].as_u64().unwrap_or(1),
+            "replHandles": if name == "WorkerReplaced" { e["handles"].clone() } else { json!([]) }, "raw": e}));
     }
     out
 }
